@@ -254,8 +254,10 @@ def _ctors(facts, c):
         if ins in (["(alloc::vec::Vec<usize>, alloc::vec::Vec<%s>)" % fl], ["(alloc::vec::Vec<usize>, alloc::rc::Rc<alloc::vec::Vec<%s>>)" % fl]):
             n += 1
             t = _Tally(c, "contract:%s" % b["def"], _where(b), "Array::from((dimensions, values))")
-            for d in dimsets:
-                for cnt in sorted({_prod(d), _prod(d) + 1, max(0, _prod(d) - 1), 1}):
+            for d in [()] + dimsets:
+                for cnt in sorted({_prod(d), _prod(d) + 1, max(0, _prod(d) - 1), 1, 3}):
+                    if d == () and cnt == 1:
+                        continue        # an empty dimension list with one value: not judged (the statement speaks of ranks >= 1)
                     ok = all(x >= 1 for x in d) and _prod(d) == cnt
                     why = "a zero dimension" if not all(x >= 1 for x in d) else "%d values for %d elements" % (cnt, _prod(d))
                     t.point(SV.run(facts, b, [(list(d), SV.FVec(cnt))]), ("dims", list(d)) if ok else ("refuse", why), "dimensions %s with %d values" % (d, cnt))
@@ -287,7 +289,38 @@ def _ctors(facts, c):
     c.count("constructors evaluated", n)
 
 
-def r55_shape_contract(facts, families=("ewise", "pointwise", "matmul", "conv", "flatten", "ctors")):
+def _layers(facts, c):
+    """Dense::forward: a batch [b, inputs] gives [b, outputs]; a batch of another width is refused (also when its element count happens to be a
+    multiple of the layer's width)"""
+    n = 0
+    for b in facts.fns():
+        if not (b.get("thir") and b.get("name") == "forward" and b.get("impl_trait_def") == "corgi::layer::Layer" and "Dense" in (b.get("impl_self") or "")):
+            continue
+        adt = next((a for k, a in facts.adts.items() if k.endswith("::Dense")), None)
+        fields = [f_ for v in (adt or {}).get("variants", []) for f_ in v["fields"]]
+        arrs = [f_ for f_ in fields if f_["ty"] == ARRAY]
+        wi = next((i for i, f_ in enumerate(fields) if f_["ty"] == ARRAY and "weight" in f_["name"]), None)
+        bi = next((i for i, f_ in enumerate(fields) if f_["ty"] == ARRAY and "bias" in f_["name"]), None)
+        n += 1
+        t = _Tally(c, "contract:%s" % b["def"], _where(b), "Dense::forward")
+        if len(arrs) != 2 or wi is None or bi is None:
+            t.close()
+            continue
+        for ins in (1, 2, 3):
+            for outs in (1, 2, 3):
+                for batch in (1, 2):
+                    for width in (1, 2, 3, 4, 6):
+                        me = []
+                        for i, f_ in enumerate(fields):
+                            me.append(SV.Arr([outs, ins], tracked=True) if i == wi else SV.Arr([outs], tracked=True) if i == bi else SV.NONE if f_["ty"].startswith("core::option::Option<") else SV.UNK)
+                        want = ("dims", [batch, outs]) if width == ins else ("refuse", "rows of width %d for a layer of %d inputs" % (width, ins))
+                        out = SV.run(facts, b, [tuple(me), SV.Arr([batch, width])])
+                        t.point(out, want, "a [%d, %d] batch given to Dense(%d -> %d)" % (batch, width, ins, outs))
+        t.close()
+    c.count("Dense::forward implementations evaluated", n)
+
+
+def r55_shape_contract(facts, families=("ewise", "pointwise", "matmul", "conv", "flatten", "ctors", "layers")):
     """SHAPE-CONTRACT: on a finite grid of small operand shapes, evaluated in the shape slice of the source (dimensions concrete, element data abstracted), every operation refuses exactly the inadmissible shapes and returns the documented dimensions"""
     c = Ctx("R55", facts, "operations refuse exactly the inadmissible shapes and return the documented dimensions (finite grid, shape slice)")
     if SKIP:
@@ -304,6 +337,8 @@ def r55_shape_contract(facts, families=("ewise", "pointwise", "matmul", "conv", 
         _flatten(facts, c)
     if "ctors" in families:
         _ctors(facts, c)
+    if "layers" in families:
+        _layers(facts, c)
     return c
 
 
@@ -401,6 +436,11 @@ def r56_attach_contract(facts):
 def r55_flatten(facts):
     """SHAPE-CONTRACT (flatten_to): an adjoint of the broadcast dimensions is reduced to exactly the operand's dimensions, for every pair of shapes of a finite grid"""
     return r55_shape_contract(facts, ("flatten",))
+
+
+def r55_layers(facts):
+    """SHAPE-CONTRACT (layers): Dense::forward maps a [batch, inputs] array to [batch, outputs] and refuses a batch of another width, on a finite grid"""
+    return r55_shape_contract(facts, ("layers",))
 
 
 def r55_ctors(facts):
